@@ -3,8 +3,11 @@ C01 — model of the request/response core of `actorex/service/service.go`
   doRequestEx / AllocReqId / tryStartCheckTimer   (`issue`)
   handleResponse                                   (`response`)
   checkExpired / freeTimer                         (`tick`, `tickLoop`)
-and of what a completion callback may do while it runs (`issue` again, then
-return: `ret`).
+  node/app/serviceutils.go Request / Notify /
+    QuerySession / Kick without a routable target  (`noroute`; with one they are `issue`)
+  ResponseEx's decision whether to answer           (`respondsTo`)
+and of what a completion callback may do while it runs (`issue` / `noroute` again,
+then return: `ret`).
 
 Small-step, sequential (everything here runs on the requesting service's own
 goroutine — that is C04's theorem, assumed here).  A callback is *not* a value
@@ -41,17 +44,21 @@ inductive Payload
   | ok (v : Option Nat)   -- ErrCode = 0; typed body `some v` or no body
   | err (e : Nat)         -- ErrCode ≠ 0, ErrInfo
   | bad                   -- ErrCode = 0 but `remote.Deserialize` fails
+  | badType               -- ErrCode = 0, a type name nobody registered: `remote.Deserialize` panics;
+                          -- `deserializeReply` recovers and reports an error (the repaired D22)
   deriving DecidableEq, Repr
 
 /-- what a callback is called with -/
 inductive Outcome
   | reply (v : Option Nat) | remoteErr (e : Nat) | decodeErr | timeout | serErr
+  | noService   -- `app.ErrorNoService`: the node-level route found no target
   deriving DecidableEq, Repr
 
 def decode : Payload → Outcome
   | .ok v => .reply v
   | .err e => .remoteErr e
   | .bad => .decodeErr
+  | .badType => .decodeErr
 
 /-- `RequestWaitResponse` -/
 structure Wait where
@@ -63,6 +70,7 @@ structure Wait where
 
 inductive Ev
   | issued (inst id t : Nat)                    -- request: id allocated, `Handlers[id]` stored at time t
+                                                -- (id 0: a node-level request that found no route — never stored)
   | sent (inst id : Nat)                        -- handed to `Context.Send` (id 0 = notify)
   | cb (inst id : Nat) (o : Outcome) (t : Nat)  -- the callback of instance `inst` is invoked
   | done (inst id : Nat)                        -- `delete(s.Handlers, id)`
@@ -150,6 +158,22 @@ def issue (s : State) (isReq serOk hasCb : Bool) : State :=
   else
     if serOk then { s with log := .sent inst 0 :: s.log } else s
 
+/-- node-level `app.Request` / `app.Notify` (`node/app/serviceutils.go`; `QuerySession` and `Kick` have
+the same shape) when `RoutePID` finds no target: nothing reaches `doRequestEx` — no id is allocated,
+nothing is stored, sent or armed; a request's callback, if there is one, is invoked at once,
+synchronously, with `ErrorNoService` (`apientry.CheckInvokeCBFunc`).  With a target the call IS
+`RequestEx` / `NotifyEx`, i.e. `issue`.  Ghost bookkeeping: the completed instance is logged as
+issued-and-done under the notification id 0. -/
+def noroute (s : State) (isReq hasCb : Bool) : State :=
+  if isReq && hasCb then
+    { s with ninst := s.ninst + 1, nest := s.nest + 1,
+             log := .cb s.ninst 0 .noService s.now :: .done s.ninst 0 :: .issued s.ninst 0 s.now :: s.log }
+  else { s with ninst := s.ninst + 1 }
+
+/-- `ResponseEx` (the answering side): is a `ServiceResponse` sent back for a request received with
+this id / sender?  Never for a notification (`ReqId == NotifyReqID`) nor without a sender. -/
+def respondsTo (reqId : Nat) (hasSender : Bool) : Bool := reqId != 0 && hasSender
+
 /-- is the goroutine free to take the next message / timer event? -/
 def free (s : State) : Bool := s.nest == 0 && s.base == .idle
 
@@ -198,6 +222,7 @@ def panicScan (s : State) : State :=
 
 inductive Op
   | issue (isReq serOk hasCb : Bool)
+  | noroute (isReq hasCb : Bool)
   | response (id : Nat) (p : Payload)
   | tick (order : List Nat)
   | ret
@@ -207,6 +232,7 @@ inductive Op
 
 def step (s : State) : Op → State
   | .issue r o c => issue s r o c
+  | .noroute r c => noroute s r c
   | .response id p => response s id p
   | .tick order => tick s order
   | .ret => ret s
@@ -233,6 +259,17 @@ def issueD10 (s : State) (isReq serOk hasCb : Bool) : State :=
     else s
   else
     if serOk then { s with log := .sent inst 0 :: s.log } else s
+
+/-! ### D22 (repaired by the `fix:` commit): the previous `handleResponse` called
+`remote.Deserialize` directly.  For a type name nobody registered it panics — after the
+lookup, before `delete` and before the callback: the entry stays registered, the callback is
+not invoked, the mailbox escalates the panic and the supervisor restarts the actor as a
+fresh `Service` (this incarnation processes no further message). -/
+def responseD22 (s : State) (id : Nat) (p : Payload) : State :=
+  if !free s then s else
+  match find id s.pending with
+  | none => { s with log := .dropped id :: s.log }
+  | some _ => if p = .badType then s else response s id p
 
 /-! ### D18 (repaired by the `fix:` commit): the previous `checkExpired` called the
 callback first and deleted the entry only after it had returned — a panicking
